@@ -65,9 +65,17 @@ Theorem C11_box_tree_enforce_then_satisfies : forall acosF sinF s x r,
   rv_tree s -> st_no_nan x -> enforce acosF sinF s x = Ok r -> satisfies acosF s r = Ok true.
 Proof. intros acosF sinF s x r Hs Hx. exact (rv_tree_law acosF sinF s Hs x r Hx). Qed.
 (* and the sampling half: component samples that pass their own check make a compound sample that passes *)
-Theorem C11_compound_sample_then_satisfies : forall acosF fuel subs,
-  Forall (fun sw => smp_sat_law acosF fuel (fst sw)) subs -> smp_sat_law acosF fuel (CS subs).
+Theorem C11_compound_sample_then_satisfies : forall acosF fuel (Q : list N -> Prop) subs,
+  Forall (fun sw => smp_sat_law acosF fuel Q (fst sw)) subs -> smp_sat_law acosF fuel Q (CS subs).
 Proof. exact compound_sample_then_satisfies. Qed.
+(* closed instance: in R^n and in every compound tree of boxes (any width, any nesting), every state that
+   sample_uniform returns from a stream of u64 words passes satisfies_bounds *)
+Theorem C11_box_tree_sample_then_satisfies : forall acosF fuel s us x rest,
+  box_tree s -> Forall (fun u => (u < 2^64)%N) us ->
+  sample acosF fuel s us = (Some (Ok x), rest) -> satisfies acosF s x = Ok true.
+Proof. intros acosF fuel s us x rest Hs Hu H. exact (proj1 (box_tree_sample_law acosF fuel s Hs us x rest Hu H)). Qed.
+
+Print Assumptions C11_box_tree_sample_then_satisfies.
 
 Print Assumptions C11_compound_sample_then_satisfies.
 Print Assumptions C11_compound_enforce_then_satisfies.
